@@ -25,6 +25,8 @@ func C14(r *core.Run) {
 	r.Floor("R-DET/N1", 6, "map ranges and protoreflect Range calls on the compile/print path confirmed by reading")
 	rules.MemoPurity(r, "internal/j5s/protobuild", []string{"searchLinker.linkResult"}, "det_sites")
 	optionOrder(r)
+	optionOwnLine(r)
+	packageListingByDirectory(r)
 }
 
 // optionOrder (R-DET/N3): Builder.OptionsFor collects the options of an
